@@ -1,23 +1,29 @@
 #!/bin/bash
 # Runs every seeded change against the checks of the properties it breaks; writes seeded/RESULTS.md.
-# Applies each patch to /repo's working tree and reverts it afterwards (git apply -R).
+# Works on a scratch copy of /repo (outside /repo and /verif, removed afterwards) with a private copy of the
+# gocv binary and the current contracts/specs/baseline; neither /repo nor the evidence files are touched.
 export GOFLAGS=-mod=mod GOPROXY=off GOSUMDB=off GOTOOLCHAIN=local
 cd /verif
+scratch=$(mktemp -d /tmp/verif-matrix-XXXXXX)
+trap 'rm -rf "$scratch"' EXIT
+cp bin/gocv "$scratch/gocv"
+mkdir -p "$scratch/verif"; cp -r specs baseline known_findings.json "$scratch/verif/"
+rsync -a --exclude .git /repo/ "$scratch/base/"
 out=seeded/RESULTS.md
-echo "| id | property | check | result | failing obligations (first 3) |" > $out
-echo "|---|---|---|---|---|" >> $out
+tmp="$scratch/RESULTS.md"
+echo "| id | property | check | result | failing obligations (first 3) |" > $tmp
+echo "|---|---|---|---|---|" >> $tmp
 for d in seeded/m*/; do
   id=$(basename $d)
   props=$(python3 -c "import json;m=json.load(open('$d/meta.json'));print(' '.join(m['property'].replace(',',' ').split()+m.get('also',[])))")
-  if ! git -C /repo apply --check /verif/$d/patch.diff 2>/dev/null; then echo "| $id | $props | - | patch no longer applies | |" >> $out; continue; fi
-  git -C /repo apply /verif/$d/patch.diff
+  rm -rf "$scratch/repo"; cp -r "$scratch/base" "$scratch/repo"
+  if ! (cd "$scratch/repo" && git apply "/verif/$d/patch.diff" 2>/dev/null); then echo "| $id | $props | - | patch no longer applies | |" >> $tmp; continue; fi
   for p in $props; do
-    log=$(./check $p 2>&1)
+    log=$(GOCV_SELFTEST_DIR="$scratch" "$scratch/gocv" check -prop $p -tier quick -repo "$scratch/repo" -verif "$scratch/verif" 2>&1)
     if echo "$log" | grep -q "^VIOLATION"; then res="caught"; else res="MISSED"; fi
     obls=$(echo "$log" | grep "^VIOLATION" | sed 's/.*replays\/[A-Z0-9]*\///; s/\.json.*//' | head -3 | tr '\n' ';')
-    echo "| $id | $props | $p | $res | $obls |" >> $out
+    echo "| $id | $props | $p | $res | $obls |" >> $tmp
   done
-  git -C /repo apply -R /verif/$d/patch.diff
 done
-git -C /repo status --short | grep -v zz_contracts
+cp $tmp $out
 cat $out
